@@ -1,7 +1,7 @@
 (* Extraction of the executable model to OCaml (ExtrOcamlBasic only; N, Z, positive, nat stay datatypes). *)
 Require Extraction.
 Require Import ExtrOcamlBasic.
-From DictIO Require Import Chars Str Value Scalar KeyPath SDict.
+From DictIO Require Import Chars Str Value Scalar KeyPath SDict Layout Lexer TokParser.
 Extraction Blacklist String List Nat Bool Str.
 Cd "../ocaml/extracted".
 Separate Extraction
@@ -11,5 +11,7 @@ Separate Extraction
   Scalar.format_key Scalar.py_float_ok Scalar.py_int_ok Scalar.scalar_to_key
   KeyPath.find_global_key KeyPath.set_global_key KeyPath.key_exists KeyPath.reduce_scope KeyPath.order_tree
   KeyPath.get_path KeyPath.py_str
-  SDict.sd_trace SDict.sd_clean SDict.sd_order SDict.sd_merge SDict.sd_update.
+  SDict.sd_trace SDict.sd_clean SDict.sd_order SDict.sd_merge SDict.sd_update
+  Layout.to_string_plain Layout.foam_to_string_plain Layout.to_string_sd Layout.foam_to_string_sd
+  Lexer.lex TokParser.parse_tokens TokParser.parse_string TokParser.levels.
 Cd "../../coq".
